@@ -396,3 +396,142 @@ Proof.
       split; [symmetry; exact Hqa|]. split; [unfold gf; cbn [fill_of f_fee]; symmetry; apply this_Q2Qc|].
       right. split; reflexivity.
 Qed.
+
+(* ---- the engine: instruments addressed by index, in lockstep with the oracle's per-instrument state --- *)
+
+Definition GJ (indep : bool) (tr : Q) (s : estate) (sp : N -> spec) : Prop :=
+  forall j, J indep tr j (s j) (sp j).
+
+Lemma GJ_init indep tr : GJ indep tr (fun _ => is0) (fun _ => spec0).
+Proof.
+  intros j. constructor; cbn [is0 is_pos is_md spec0 sp_net sp_reg good sq_pm pos_ok].
+  - exact I.
+  - reflexivity.
+  - intros _. exact MR_init.
+  - exact I.
+Qed.
+
+Lemma route_eevent_of e : route (eevent_of e) = oroute e.
+Proof. destruct e; reflexivity. Qed.
+
+Lemma istate_matches_facts t tm st o : istate_matches t tm st o = true ->
+  omatch (pos_matches t) (is_pos st) (oi_pos o) = true /\
+  omatch (fun x y => near tm (this x) y) (md_price (is_md st)) (oi_price o) = true.
+Proof. unfold istate_matches. intros H. split_andb H. split; assumption. Qed.
+
+Definition ev_l1_wf (e : oevent) : Prop :=
+  match e with OMarket _ (OML1 t lt _ _) => lt = t | _ => True end.
+Definition ev_fill_wf (e : oevent) : Prop :=
+  match e with OFill f => 0 < of_qty f | _ => True end.
+
+Lemma step_link15 indep t tm tr s sp e o :
+  0 <= tr -> tr = (if indep then 0 else tm) ->
+  (indep = true -> ev_l1_wf e) -> ev_fill_wf e ->
+  GJ indep tr s sp ->
+  istate_matches t tm (estep s (eevent_of e) (oroute e)) o = true ->
+  let g := match e with
+           | OMarket _ m => spec_market indep (sp (oroute e)) m (oi_price o)
+           | OFill f => spec_fill (sp (oroute e)) f
+           end in
+  (verdict t tr g o = 0%N \/ verdict t tr g o = 1%N) /\
+  GJ indep tr (estep s (eevent_of e)) (supd sp (oroute e) g).
+Proof.
+  intros Htr Etr Hl1 Hfw HG Hm. cbv zeta.
+  set (i := oroute e) in *.
+  assert (Es : estep s (eevent_of e) i = istep (s i) (payload (eevent_of e))).
+  { unfold estep, eupd. rewrite route_eevent_of. fold i. rewrite N.eqb_refl. reflexivity. }
+  rewrite Es in Hm. apply istate_matches_facts in Hm. destruct Hm as [Hpos Hprice].
+  set (g := match e with
+            | OMarket _ m => spec_market indep (sp i) m (oi_price o)
+            | OFill f => spec_fill (sp i) f
+            end).
+  assert (HJ : J indep tr i (istep (s i) (payload (eevent_of e))) g).
+  { unfold g. destruct e as [i0 m|f]; cbn [eevent_of payload istep] in *.
+    - apply (J_market indep tr tm i (s i) (sp i) m (oi_price o) Htr Etr); [|apply HG|exact Hprice].
+      intros Ei. specialize (Hl1 Ei). destruct m; exact Hl1 || exact I.
+    - apply (J_fill indep tr i (s i) (sp i) f Htr); [|apply HG].
+      split; [reflexivity|exact Hfw]. }
+  split.
+  - exact (verdict_ok t tr _ g o (J_pos _ _ _ _ _ HJ) Hpos).
+  - intros j. unfold estep, eupd, supd. rewrite route_eevent_of. fold i.
+    destruct (N.eqb j i) eqn:Ej.
+    + apply N.eqb_eq in Ej. subst j. exact HJ.
+    + apply HG.
+Qed.
+
+Lemma run_link15 indep t tm tr : 0 <= tr -> tr = (if indep then 0 else tm) ->
+  forall evs obs s sp,
+  (indep = true -> Forall ev_l1_wf evs) -> Forall ev_fill_wf evs ->
+  GJ indep tr s sp ->
+  fst (corr_run t tm s evs obs) = true ->
+  Forall (fun v => v = 0%N \/ v = 1%N) (prop_run indep t tr sp evs obs).
+Proof.
+  intros Htr Etr. induction evs as [|e evs IH]; intros obs s sp Hl1 Hfw HG Hc.
+  - destruct obs; [constructor|discriminate Hc].
+  - destruct obs as [|o obs]; [discriminate Hc|]. cbn [corr_run] in Hc.
+    destruct (istate_matches t tm (estep s (eevent_of e) (oroute e)) (fst o) &&
+              omatch (exit_matches t) (exit_of_step s (eevent_of e)) (snd o)) eqn:Em;
+      [|discriminate Hc].
+    apply andb_prop in Em. destruct Em as [Em _].
+    inversion Hfw as [|? ? Hf1 Hf2]; subst.
+    assert (Hl1e : indep = true -> ev_l1_wf e) by (intros Ei; specialize (Hl1 Ei); inversion Hl1; assumption).
+    assert (Hl1r : indep = true -> Forall ev_l1_wf evs) by (intros Ei; specialize (Hl1 Ei); inversion Hl1; assumption).
+    destruct (step_link15 indep t tm tr s sp e (fst o) Htr Etr Hl1e Hf1 HG Em) as [Hv HG'].
+    cbn [prop_run]. constructor; [exact Hv|].
+    apply (IH obs _ _ Hl1r Hf2 HG' Hc).
+Qed.
+
+Lemma tol_mid_nonneg evs : 0 <= tol_mid evs.
+Proof.
+  unfold tol_mid. rewrite Qred_correct.
+  assert (H : 0 <= fold_right (fun e a => Qmaxq (ev_price e) a) 0 evs).
+  { induction evs as [|x l IH]; cbn [fold_right]; [lra|]. apply Qmaxq_nonneg. exact IH. }
+  set (p := fold_right _ 0 evs) in *. apply Qmult_le_0_compat; [lra|]. unfold tol18. reflexivity || (apply Qle_bool_iff; reflexivity).
+Qed.
+
+Lemma l1_times_wf_Forall evs : l1_times_wf evs = true -> Forall ev_l1_wf evs.
+Proof.
+  unfold l1_times_wf. rewrite forallb_forall. intros H. apply Forall_forall. intros e Hin.
+  specialize (H e Hin). destruct e as [i [| t lt b a|]|f]; cbn [ev_l1_wf]; try exact I.
+  apply Z.eqb_eq in H. symmetry. exact H.
+Qed.
+
+Lemma wf_case_fills n evs obs fin fr : wf_case (CEngine n evs obs fin fr) = true -> Forall ev_fill_wf evs.
+Proof.
+  cbn [wf_case]. rewrite forallb_forall. intros H. apply Forall_forall. intros e Hin.
+  specialize (H e Hin). destruct e as [i m|f]; cbn [ev_fill_wf]; [exact I|].
+  cbn [wf_event] in H. split_andb H. apply negb_true_iff, Qle_bool_false in H2. exact H2.
+Qed.
+
+(** the link theorem, modulo the known class *)
+Theorem verdicts_sound : forall c, wf_case c = true -> corr_b c = true ->
+  forallb (fun v => N.eqb v 0 || N.eqb v 1) (verdicts c) = true.
+Proof.
+  intros [n evs obs fin fr] Hwf Hcorr. cbn [corr_b verdicts] in *.
+  split_andb Hcorr.
+  set (indep := l1_times_wf evs) in *.
+  set (tr := if indep then 0 else tol_mid evs).
+  assert (Htr : 0 <= tr) by (unfold tr; destruct indep; [lra|apply tol_mid_nonneg]).
+  pose proof (run_link15 indep (tols15 evs) (tol_mid evs) tr Htr eq_refl evs obs
+                (fun _ => is0) (fun _ => spec0)) as H.
+  apply forallb_forall. intros v Hin.
+  assert (HF : Forall (fun v => v = 0%N \/ v = 1%N)
+                 (prop_run indep (tols15 evs) tr (fun _ => spec0) evs obs)).
+  { apply H; [intros Ei; apply l1_times_wf_Forall; exact Ei|
+              exact (wf_case_fills _ _ _ _ _ Hwf)|apply GJ_init|exact Hcorr]. }
+  rewrite Forall_forall in HF. destruct (HF v Hin) as [->| ->]; reflexivity.
+Qed.
+
+Theorem oracle_sound : forall c, wf_case c = true -> corr_b c = true ->
+  prop_b c = true \/ known_b c = 1%N.
+Proof.
+  intros c Hwf Hcorr. right. unfold known_b. rewrite (verdicts_sound c Hwf Hcorr). reflexivity.
+Qed.
+
+Theorem judge_sound : forall c, wf_case c = true -> corr_b c = true ->
+  judge c = 0%N \/ judge c = 101%N.
+Proof.
+  intros c Hwf Hcorr. pose proof (verdicts_sound c Hwf Hcorr) as Hv.
+  unfold judge. rewrite Hwf, Hcorr. cbn [negb andb]. rewrite andb_false_r.
+  unfold judge_code, known_b. rewrite Hv. destruct (prop_b c); [left|right]; reflexivity.
+Qed.
